@@ -52,6 +52,12 @@ def carryTigerL : List Tree → List Tree
   | t :: ts => carryTiger t :: carryTigerL ts
 end
 
+/-- TIGER-XML has no place for the root's own edge label (edge labels are attributes of the edges below a node) -/
+def carryTigerRoot (t : Tree) : Tree :=
+  match carryTiger t with
+  | node f ks => node { f with edge := some DEFAULT_EDGE } ks
+  | x => x
+
 /-- equality modulo the order in which children are stored -/
 def sameTree (a b : Tree) : Bool := Tree.beq (sortKids a) (sortKids b)
 
